@@ -45,6 +45,7 @@ type Flow struct {
 	results []Val
 	msg     string
 	pos     string
+	retPos  token.Pos
 }
 
 const (
